@@ -9,6 +9,8 @@ def mir_vcs():
          "run": lambda f, v, w: _mir.vc_rej_only_failed(f, v, w)},
         {"name": "rollback_and_save_rej_files: Ok only when the stack top is not of the rejected patch (no arm leaves the loop early)", "function": "rollback_and_save_rej_files", "target": "bin",
          "run": lambda f, v, w: _mir.vc_rej_pass_complete(f, v, w)},
+        {"name": "make_rej_filename: the name is made from the file's own path by with_extension / with_file_name (directory kept)", "function": "make_rej_filename", "target": "bin",
+         "run": lambda f, v, w: _mir.vc_rej_name_beside_file(f, v, w)},
         {"name": "apply_modify (normal mode): every recorded hunk report comes from trying that hunk (no hunk written off after an earlier failure)", "function": "TextFilePatch::apply_modify", "target": "lib",
          "run": lambda f, v, w: _mir.vc_every_hunk_tried(f, v, w)},
         {"name": "apply_worker: file patches of the broken patch are still attempted, later ones are not", "function": "apply_worker", "target": "bin",
